@@ -30,7 +30,7 @@ pub fn run(ctx: &mut Ctx) {
         let written = if asyncw {
             let pm = l.build_async();
             guard(|| write_async(pm))
-        } else if i % 7 == 5 && l.tiles.len() >= 3 {
+        } else if (i % 7 == 5 || l.class.starts_with("HugeTiles")) && l.tiles.len() >= 3 {
             ctx.count("archives_built_in_two_sessions");
             guard(|| crate::checks::c01::two_sessions(&l, &mut rng))
         } else if i % 4 == 2 {
